@@ -65,16 +65,36 @@ impl Conf {
     /// Random configuration.  `unary_ok`: allow unary for components whose values can be
     /// large (kept off for big graphs so that codewords stay short).
     pub fn random(rng: &mut Rng, n: usize) -> Conf {
-        let default_codes = rng.chance(1, 3);
         let mut codes = [Codes::Gamma, Codes::Unary, Codes::Gamma, Codes::Gamma, Codes::Zeta(3)];
-        if !default_codes {
-            for (i, c) in codes.iter_mut().enumerate() {
-                loop {
-                    *c = rng.pick(&ALL_CODES);
-                    // unary on residuals/intervals/outdegrees of a large graph is legal but
-                    // produces very long codewords; keep it for small graphs only
-                    if *c == Codes::Unary && i != 1 && n > 64 { continue; }
-                    break;
+        match rng.below(6) {
+            0 | 1 => {} // defaults
+            2 => {
+                // version-0 family: old codes sharing one zeta parameter
+                let k = rng.range(1, 7);
+                let old = [Codes::Unary, Codes::Gamma, Codes::Delta, Codes::Zeta(k)];
+                for (i, c) in codes.iter_mut().enumerate() {
+                    if rng.chance(1, 2) { *c = rng.pick(&old); }
+                    if *c == Codes::Unary && i != 1 && n > 64 { *c = Codes::Gamma; }
+                }
+            }
+            3 => {
+                // old codes with possibly different zeta parameters (unrepresentable when
+                // big-endian) and often the default residual code
+                for (i, c) in codes.iter_mut().enumerate() {
+                    if i == 4 && rng.chance(1, 2) { continue; }
+                    if rng.chance(1, 2) { *c = Codes::Zeta(rng.range(1, 7)); }
+                    else if rng.chance(1, 2) { *c = rng.pick(&[Codes::Gamma, Codes::Delta]); }
+                }
+            }
+            _ => {
+                for (i, c) in codes.iter_mut().enumerate() {
+                    loop {
+                        *c = rng.pick(&ALL_CODES);
+                        // unary on residuals/intervals/outdegrees of a large graph is legal but
+                        // produces very long codewords; keep it for small graphs only
+                        if *c == Codes::Unary && i != 1 && n > 64 { continue; }
+                        break;
+                    }
                 }
             }
         }
@@ -232,15 +252,59 @@ pub fn reload_seq(dir: &Path, le: bool) -> Result<Graph, String> {
     reload_seq_base(&dir.join("g"), le)
 }
 
+/// Reloads in a child process: decoding a corrupt stream may abort the process (e.g. an
+/// absurd allocation), which must not take the harness down.
 pub fn reload_seq_base(base: &Path, le: bool) -> Result<Graph, String> {
+    let exe = std::env::current_exe().map_err(|e| e.to_string())?;
+    let mut child = std::process::Command::new(exe)
+        .arg("reload-exec").arg(base).arg(if le { "1" } else { "0" })
+        .stdin(std::process::Stdio::null())
+        .stdout(std::process::Stdio::piped())
+        .stderr(std::process::Stdio::null())
+        .spawn().map_err(|e| e.to_string())?;
+    let start = std::time::Instant::now();
+    // read stdout in a thread to avoid pipe back-pressure
+    let mut so = child.stdout.take().unwrap();
+    let reader = std::thread::spawn(move || { let mut v = Vec::new(); let _ = std::io::Read::read_to_end(&mut so, &mut v); v });
+    loop {
+        match child.try_wait() {
+            Ok(Some(_)) => break,
+            Ok(None) => {
+                if start.elapsed().as_secs() > 60 { let _ = child.kill(); let _ = child.wait(); return Err("timeout".into()); }
+                std::thread::sleep(std::time::Duration::from_millis(1));
+            }
+            Err(e) => return Err(e.to_string()),
+        }
+    }
+    let status = child.wait().map_err(|e| e.to_string())?;
+    let out = String::from_utf8_lossy(&reader.join().unwrap_or_default()).to_string();
+    if !status.success() && !out.starts_with("ERR ") && !out.starts_with("OK ") {
+        return Err(format!("abort:{:?}", status.code()));
+    }
+    if let Some(rest) = out.strip_prefix("OK ") {
+        Ok(parse_lists(rest.trim_end_matches('\n')))
+    } else {
+        Err(out.trim_start_matches("ERR ").trim().to_string())
+    }
+}
+
+/// Body of the `reload-exec` child mode.
+pub fn reload_exec(base: &Path, le: bool) {
+    match reload_in_process(base, le) {
+        Ok(g) => println!("OK {}", fmt_lists(&g)),
+        Err(e) => println!("ERR {e}"),
+    }
+}
+
+fn reload_in_process(base: &Path, le: bool) -> Result<Graph, String> {
     catch(std::panic::AssertUnwindSafe(|| -> Result<Graph> {
         let mut out = Vec::new();
         if le {
-            let s = BvGraphSeq::with_basename(&base).endianness::<LE>().load()?;
+            let s = BvGraphSeq::with_basename(base).endianness::<LE>().load()?;
             let mut it = s.iter();
             while let Some((_x, succ)) = lender::Lender::next(&mut it) { out.push(succ.into_iter().collect()); }
         } else {
-            let s = BvGraphSeq::with_basename(&base).endianness::<BE>().load()?;
+            let s = BvGraphSeq::with_basename(base).endianness::<BE>().load()?;
             let mut it = s.iter();
             while let Some((_x, succ)) = lender::Lender::next(&mut it) { out.push(succ.into_iter().collect()); }
         }
@@ -373,7 +437,32 @@ pub fn run(seed: u64, count: usize, max_n: usize, mode: &str, out: &mut impl Wri
     }
     for i in 0..count {
         let n = if rng.chance(1, 10) { rng.below(3) } else { rng.range(1, max_n) };
-        let (g, mut c) = if mode == "chain" {
+        let (g, mut c) = if mode == "zchain" {
+            // small graphs of highly similar lists: branching reference forests in which the
+            // Zuckerli DP prunes references and the greedy pass re-adds others
+            let n = rng.range(4, max_n.clamp(5, 14));
+            let universe = rng.range(8, 30);
+            let base: Vec<usize> = (0..rng.range(5, 10)).map(|_| rng.below(universe)).collect();
+            let mut g: Graph = Vec::new();
+            for x in 0..n {
+                let mut l = if x > 0 && rng.chance(1, 2) { let b = 1 + rng.below(x.min(3)); g[x - b].clone() } else { base.clone() };
+                for _ in 0..rng.below(3) {
+                    if !l.is_empty() && rng.chance(1, 2) { let i = rng.below(l.len()); l.remove(i); } else { l.push(rng.below(universe)); }
+                }
+                l.sort_unstable(); l.dedup();
+                g.push(l);
+            }
+            // successors must be nodes: pad with empty lists
+            while g.len() < universe { g.push(Vec::new()); }
+            let mut c = Conf::random(&mut rng, n);
+            c.zuck = true;
+            c.w = rng.pick(&[1, 2, 3, 4, 7]);
+            c.mr = rng.pick(&[1, 1, 2, 2, 3]);
+            c.l = rng.pick(&[0, 0, 2, 4]);
+            c.chunk = rng.pick(&[3, 5, 7, 100, 10000]);
+            if rng.chance(1, 2) { c.codes = [Codes::Gamma, Codes::Unary, Codes::Gamma, Codes::Gamma, Codes::Zeta(3)]; }
+            (g, c)
+        } else if mode == "chain" {
             // long reference chains: near-duplicates of the previous list, small max_ref
             let mut g: Graph = Vec::new();
             let mut cur: Vec<usize> = (0..rng.range(4, 12)).map(|_| rng.below(4 * n + 8)).collect();
@@ -396,7 +485,7 @@ pub fn run(seed: u64, count: usize, max_n: usize, mode: &str, out: &mut impl Wri
         let n = g.len();
         if mode == "chain" && rng.chance(1, 2) { c.zuck = true; }
         let (how, path, cuts): (How, &str, Vec<usize>) = match mode {
-            "seq" | "chain" => {
+            "seq" | "chain" | "zchain" => {
                 if rng.chance(1, 2) { (How::CompGraph, "comp_graph", vec![0, n]) }
                 else { (How::CompLender, "comp_lender", vec![0, n]) }
             }
